@@ -452,13 +452,26 @@ fn op_of(rule: usize, kind: Kind) -> Op<R> {
 
 fn build_pratt(t: &Table) -> PrattParser<R> {
     let mut p = PrattParser::new();
-    for l in &t.levels {
-        let mut it = l.iter();
-        let (r, k) = it.next().unwrap();
-        let mut op = op_of(*r, *k);
-        for (r, k) in it {
-            op = op | op_of(*r, *k);
-        }
+    for (li, l) in t.levels.iter().enumerate() {
+        // `a | b | c` groups to the left; `a | (b | c)` is the same level written differently
+        let right_nested = (l.iter().map(|x| x.0).sum::<usize>() + li) % 3 == 0;
+        let op = if right_nested {
+            let mut it = l.iter().rev();
+            let (r, k) = it.next().unwrap();
+            let mut op = op_of(*r, *k);
+            for (r, k) in it {
+                op = op_of(*r, *k) | op;
+            }
+            op
+        } else {
+            let mut it = l.iter();
+            let (r, k) = it.next().unwrap();
+            let mut op = op_of(*r, *k);
+            for (r, k) in it {
+                op = op | op_of(*r, *k);
+            }
+            op
+        };
         p = p.op(op);
     }
     p
@@ -492,14 +505,44 @@ fn build_const(levels: &[Vec<(usize, Kind)>]) -> Box<dyn TreeBuilder> {
 fn build_climber(t: &Table) -> pest::prec_climber::PrecClimber<R> {
     use pest::prec_climber::{Assoc as A, Operator, PrecClimber};
     let conv = |k: Kind| if k == Kind::InfixL { A::Left } else { A::Right };
-    let mut v = vec![];
-    for l in &t.levels {
-        let mut it = l.iter();
-        let (r, k) = it.next().unwrap();
-        let mut op = Operator::new(OPS[*r], conv(*k));
-        for (r, k) in it {
-            op = op | Operator::new(OPS[*r], conv(*k));
+    // every third table goes through the const constructor, entries in no particular order
+    // ("Entries don't have to be ordered in any way")
+    let key: usize = t.levels.iter().flatten().map(|x| x.0 * 7 + 1).sum();
+    if key % 3 == 0 {
+        let mut flat: Vec<(R, u32, A)> = vec![];
+        for (li, l) in t.levels.iter().enumerate() {
+            for (r, k) in l {
+                flat.push((OPS[*r], li as u32 + 1, conv(*k)));
+            }
         }
+        // a deterministic shuffle
+        let n = flat.len();
+        for i in 0..n {
+            flat.swap(i, (i * 5 + key) % n);
+        }
+        let leaked: &'static [(R, u32, A)] = Box::leak(flat.into_boxed_slice());
+        return PrecClimber::new_const(leaked);
+    }
+    let mut v = vec![];
+    for (li, l) in t.levels.iter().enumerate() {
+        let right_nested = (l.iter().map(|x| x.0).sum::<usize>() + li) % 3 == 1;
+        let op = if right_nested {
+            let mut it = l.iter().rev();
+            let (r, k) = it.next().unwrap();
+            let mut op = Operator::new(OPS[*r], conv(*k));
+            for (r, k) in it {
+                op = Operator::new(OPS[*r], conv(*k)) | op;
+            }
+            op
+        } else {
+            let mut it = l.iter();
+            let (r, k) = it.next().unwrap();
+            let mut op = Operator::new(OPS[*r], conv(*k));
+            for (r, k) in it {
+                op = op | Operator::new(OPS[*r], conv(*k));
+            }
+            op
+        };
         v.push(op);
     }
     PrecClimber::new(v)
